@@ -1419,6 +1419,7 @@ impl Backend for GitBackend {
 
         // Update the signature to match the one that was actually written to the object
         // store
+        contents.author.timestamp.timestamp = MillisSinceEpoch(author.time.seconds * 1000);
         contents.committer.timestamp.timestamp = MillisSinceEpoch(committer.time.seconds * 1000);
         let mut mut_table = table.start_mutation();
         mut_table.add_entry(id.to_bytes(), extras);
